@@ -811,4 +811,126 @@ def verifyRRSIG (oneSig : List VRec → VSig → Bool) (nKeys : Nat) (zone : Byt
       let sl := sigIdx.filter (fun s => sigKey s == rrKey r)
       !sl.isEmpty && isRRset (hdrsOf set) && sl.any (fun s => oneSig set s))
 
+/-! ## `VerifyRRSIGWithWork`: the same walk under a work governor -/
+
+/-- Go's string order on byte strings. -/
+def bytesLt : Bytes → Bytes → Bool
+  | _, [] => false
+  | [], _ :: _ => true
+  | a :: s, b :: t => if a.toNat < b.toNat then true else if b.toNat < a.toNat then false else bytesLt s t
+
+/-- lexicographic order on a list of (less, equal) comparisons. -/
+def lexLt : List (Bool × Bool) → Bool
+  | [] => false
+  | (lt, eq) :: t => if lt then true else if eq then lexLt t else false
+
+def natC (a b : Nat) : Bool × Bool := (decide (a < b), decide (a = b))
+def bytesC (a b : Bytes) : Bool × Bool := (bytesLt a b, decide (a = b))
+
+def insertBy {α : Type} (lt : α → α → Bool) (x : α) : List α → List α
+  | [] => [x]
+  | y :: t => if lt y x then y :: insertBy lt x t else x :: y :: t
+
+/-- a sort of duplicate-free lists under a total order (stands for `sort.Slice`). -/
+def sortBy {α : Type} (lt : α → α → Bool) : List α → List α
+  | [] => []
+  | x :: t => insertBy lt x (sortBy lt t)
+
+/-- keep the first record of every identity. -/
+def dedupBy {α κ : Type} [DecidableEq κ] (key : α → κ) : List α → List κ → List α
+  | [], _ => []
+  | x :: t, seen => if key x ∈ seen then dedupBy key t seen else x :: dedupBy key t (key x :: seen)
+
+/-- `dnskeyID`: the key with its owner spelled canonically. -/
+def keyIdent (k : VKey) : VKey := { k with name := lower (fqdn k.name) }
+
+def keyLt (a b : VKey) : Bool :=
+  lexLt [bytesC (lower (fqdn a.name)) (lower (fqdn b.name)), natC a.cls b.cls, natC a.flags b.flags,
+    natC a.proto b.proto, natC a.alg b.alg, bytesC a.pk b.pk]
+
+/-- `uniqueSortedDNSKEYs`. -/
+def uniqueSortedKeys (keys : List VKey) : List VKey :=
+  if keys.length < 2 then keys else sortBy keyLt (dedupBy keyIdent keys [])
+
+/-- `rrsigID`: the signature with owner and signer spelled canonically. -/
+def sigIdent (s : VSig) : VSig := { s with name := lower (fqdn s.name), signer := lower (fqdn s.signer) }
+
+def sigLt (a b : VSig) : Bool :=
+  lexLt [bytesC (lower (fqdn a.name)) (lower (fqdn b.name)), natC a.cls b.cls, natC a.typ b.typ, natC a.alg b.alg,
+    natC a.tag b.tag, bytesC (lower (fqdn a.signer)) (lower (fqdn b.signer)), natC a.labels b.labels,
+    natC a.origTTL b.origTTL, natC a.inc b.inc, natC a.exp b.exp, bytesC a.sigText b.sigText]
+
+/-- `uniqueSortedRRSIGs`. -/
+def uniqueSortedSigs (sigs : List VSig) : List VSig := sortBy sigLt (dedupBy sigIdent sigs [])
+
+def groupLt (a b : Bytes × Nat × Nat) : Bool := lexLt [bytesC a.1 b.1, natC a.2.1 b.2.1, natC a.2.2 b.2.2]
+
+/-- the governor of the harness: a ceiling on candidate keys per signature,
+on public-key operations per RRset, and a total budget of operations. -/
+structure Gov where
+  maxCand : Nat
+  maxSet : Nat
+  budget : Nat
+
+inductive WRes | ok | fail | work
+deriving Repr, DecidableEq
+
+/-- the candidate loop of `verifyOneSigWithWork`: `(result, operations begun, rrsetUsed)`. -/
+def candLoop (cvOk : VKey → Bool) (g : Gov) : List VKey → Nat → Nat → Nat → WRes × Nat × Nat
+  | [], _, ru, b => (WRes.fail, b, ru)
+  | k :: t, cu, ru, b =>
+    if g.maxCand ≤ cu then (WRes.work, b, ru)
+    else if g.maxSet ≤ ru then (WRes.work, b, ru)
+    else if g.budget ≤ b then (WRes.work, b, ru)
+    else if cvOk k then (WRes.ok, b + 1, ru + 1)
+    else candLoop cvOk g t (cu + 1) (ru + 1) (b + 1)
+
+/-- `verifyOneSigWithWork`. -/
+def oneSigWork (cv : VKey → VSig → List VRec → Verdict) (inPeriod : VSig → Bool) (supAlg : Nat → Bool)
+    (tagOf : VKey → Nat) (keys : List VKey) (g : Gov) (set : List VRec) (sig : VSig) (ru b : Nat) : WRes × Nat × Nat :=
+  let cands := keys.filter (fun k => tagOf k == sig.tag)
+  if cands.isEmpty then (WRes.fail, b, ru)
+  else if !cands.any (fun k => equalFold sig.signer k.name) then (WRes.fail, b, ru)
+  else if !inPeriod sig then (WRes.fail, b, ru)
+  else if !supAlg sig.alg then (WRes.fail, b, ru)
+  else if !signatureMatchesRRset sig set then (WRes.fail, b, ru)
+  else candLoop (fun k => cv k sig set == Verdict.ok) g
+    (uniqueSortedKeys (cands.filter (usableSignatureCandidate tagOf sig))) 0 ru b
+
+/-- the signature loop over one RRset. -/
+def sigLoop (one : VSig → Nat → Nat → WRes × Nat × Nat) : List VSig → Nat → Nat → WRes × Nat
+  | [], _, b => (WRes.fail, b)
+  | s :: t, ru, b =>
+    match one s ru b with
+    | (WRes.ok, b', _) => (WRes.ok, b')
+    | (WRes.work, b', _) => (WRes.work, b')
+    | (WRes.fail, b', ru') => sigLoop one t ru' b'
+
+/-- the loop over the RRsets of the message, in key order. -/
+def groupLoop (perGroup : (Bytes × Nat × Nat) → Nat → WRes × Nat) : List (Bytes × Nat × Nat) → Nat → WRes × Nat
+  | [], b => (WRes.ok, b)
+  | k :: t, b =>
+    match perGroup k b with
+    | (WRes.ok, b') => groupLoop perGroup t b'
+    | r => r
+
+/-- `VerifyRRSIGWithWork`: `(result, public-key operations begun)`. -/
+def verifyRRSIGWork (cv : VKey → VSig → List VRec → Verdict) (inPeriod : VSig → Bool) (supAlg : Nat → Bool)
+    (tagOf : VKey → Nat) (keys : List VKey) (g : Gov) (zone : Bytes) (m : VMsg) : WRes × Nat :=
+  if keys.length = 0 then (WRes.fail, 0) else
+  let z := lower (fqdn zone)
+  if m.answer.any (fun r => !exempt z m r && !nameInZone (lower r.name) z) then (WRes.fail, 0) else
+  let recs := collected z m
+  if recs.isEmpty then (WRes.ok, 0)
+  else if m.sigs.isEmpty then (WRes.fail, 0)
+  else
+    let sigIdx := m.sigs.filter (fun s => nameInZone (lower s.name) z)
+    let groups := sortBy groupLt (dedupBy id (recs.map rrKey) [])
+    groupLoop (fun k b =>
+      let set := recs.filter (fun x => rrKey x == k)
+      let sl := sigIdx.filter (fun s => sigKey s == k)
+      if sl.isEmpty then (WRes.fail, b)
+      else if !isRRset (hdrsOf set) then (WRes.fail, b)
+      else sigLoop (oneSigWork cv inPeriod supAlg tagOf keys g set) (uniqueSortedSigs sl) 0 b) groups 0
+
 end SdnsVerif.Model.DnssecPrim
